@@ -340,6 +340,25 @@ Proof.
   rewrite dde_full. apply spec_eval_dpar_ext. intros p. symmetry. apply H. lia.
 Qed.
 
+(* the same under the BOOLEAN guard delays_uniform (the one the correspondence run evaluates), for delay-parameter tables whose
+   rows cover all n units *)
+Lemma uniform_row r u : forallb (fun v => Qc_eqb v (nth 0 r 0)) r = true -> (u < length r)%nat -> nth u r 0 = nth 0 r 0.
+Proof.
+  intros H Hu. rewrite forallb_forall in H. apply Qc_eqb_true. apply H. now apply nth_In.
+Qed.
+
+Theorem vec_refines_bool hist start par dps n m md t y :
+  delays_uniform dps = true -> (forall r, In r dps -> (n <= length r)%nat) ->
+  vimpl_eval hist start par (tab dps) n m md t y = vspec_eval hist start par (tab dps) n m md t y.
+Proof.
+  intros G L. apply vec_refines. intros p u Hu. unfold tab.
+  destruct (Nat.lt_ge_cases p (length dps)) as [Hp|Hp].
+  - assert (Hin : In (nth p dps []) dps) by now apply nth_In.
+    unfold delays_uniform in G. rewrite forallb_forall in G.
+    apply uniform_row; [now apply G|]. specialize (L _ Hin). lia.
+  - rewrite (nth_overflow dps [] Hp). now destruct u.
+Qed.
+
 (* with the proposed repair of C10-F5 every accepted vectorized model meets the specification, and exactly the models
    with a non-uniform delay parameter are refused *)
 Theorem vec_checked_refines hist start par dpar n m md t y (uniform : bool) :
